@@ -193,6 +193,10 @@ class SimInterp(DexInterp):
                         return list(val) if isinstance(val, list) else val
                 raise AnalysisError("%s: attribute .%s of an item is read directly; no role getter is `return self.%s` (it may be a lazily filled cache)" % (
                     func.loc(e), e.attr, e.attr))
+        if isinstance(base_node, ast.Name) and base_node.id == "re" and e.attr.isupper() and hasattr(_re, e.attr) and "re" not in env:
+            b1 = self.eval(base_node, env, func)
+            if isinstance(b1, Sym) and b1.op in ("module", "name"):
+                return int(getattr(_re, e.attr))
         if e.attr in ("match", "search", "fullmatch", "findall", "sub", "split", "__getitem__"):
             base = self.eval(base_node, env, func)
             if isinstance(base, _re.Pattern) or (e.attr == "__getitem__" and isinstance(base, (list, tuple, dict))):
@@ -271,8 +275,11 @@ class SimInterp(DexInterp):
         if isinstance(recv, Sym) and recv.op in ("module", "name") and recv.args and recv.args[0] == "re":
             vals = [_const(a) for a in args]
             if all(_is_plain(v) for v in vals) and hasattr(_re, name):
-                return getattr(_re, name)(*vals)
-            raise AnalysisError("%s: re.%s on a non-constant argument" % (func.loc(e), name))
+                try:
+                    return getattr(_re, name)(*vals)
+                except Exception:
+                    pass
+            return Sym("call", "re." + name, *args)   # opaque: judged by whoever consumes the value
         if name == "from_iterable" and len(args) == 1:
             outer = self.iterate(args[0])
             if outer is None or any(self.iterate(x) is None for x in outer):
@@ -282,7 +289,7 @@ class SimInterp(DexInterp):
             vals = [_const(a) for a in args]
             if all(_is_plain(v) for v in vals):
                 return getattr(recv, name)(*vals)
-            raise AnalysisError("%s: regular expression applied to a non-constant value %s" % (func.loc(e), show(args)[:60]))
+            return Sym("call", "re.Pattern." + name, *args)   # opaque result (a test on it is an unevaluated condition)
         if isinstance(recv, str) and name == "join" and len(args) == 1 and self.iterate(args[0]) is not None \
                 and all(isinstance(x, str) for x in self.iterate(args[0])):
             return recv.join(self.iterate(args[0]))
